@@ -5,7 +5,7 @@
 //verif:assume file reads: pre-downloaded mode reads through the consumable store stub, streamed mode through a content store stub; file content 5 bytes (symbolic), every offset 0..6 and length 0..6; the byte-level behaviour of the real content store is decided under C01
 //verif:cover VerifC17Namespace nested implied-directories
 //verif:cover VerifC17ReadDirResume resumed small-buffer
-//verif:cover VerifC17ReadFile streamed pre-downloaded past-eof
+//verif:cover VerifC17ReadFile streamed pre-downloaded past-eof pre-downloaded-read-fails
 //verif:assume streamed reads through the real content store: a fresh cafs instance (no key cache, as a mount has) at leaf size 64 over an in-memory object store holding a file of 0, 5 or 70 bytes (bytes 0, 4, 64 symbolic); offsets {0,3,62,64,69,70,100} x lengths {0,4,8,80}; optionally the fetch of a leaf fails with io.ErrUnexpectedEOF (a cut transfer)
 //verif:cover VerifC17ReadStreamedReal empty-file two-leaves leaf-fetch-fails past-eof
 package fuse
@@ -296,7 +296,22 @@ func VerifC17ReadFile() {
 	off := vChoose("offset", 7)
 	ln := vChoose("length", 7)
 	op := &fuseops.ReadFileOp{Inode: lf.Entry.Child, Offset: int64(off), Dst: make([]byte, ln)}
+	faulty := false
+	if st, ok := fs.bundle.ConsumableStore.(*vStore); ok && !streamed && vChoose("storeReadFails", 2) == 1 {
+		// the store holding the pre-downloaded files fails this read
+		faulty = true
+		vCover("pre-downloaded-read-fails")
+		st.fail = func(op, key string) error {
+			if op == "get" || op == "getat" {
+				return errVFault
+			}
+			return nil
+		}
+	}
 	err := fs.ReadFile(ctx, op)
+	if faulty && err != nil {
+		return // reported
+	}
 	vAssert(err == nil, "read-succeeds")
 	want := 0
 	if off < 5 {
